@@ -43,9 +43,11 @@ def main(job_path, out_path):
                     except Exception as e:  # noqa
                         r = ["exc", type(e).__name__, str(e)[:200]]
                     res["calls"].append({"out": r, "runs": [t[0] for t in side.take()]})
-        except Exception:  # noqa
+        except Exception as e:  # noqa
             import traceback
             res["error"] = traceback.format_exc()[-1500:]
+            res["error_lib"] = core.lib_raised(e.__traceback__)
+            res["error_type"] = type(e).__name__
         out["programs"][str(pj["idx"])] = res
     with open(out_path, "w") as f:
         json.dump(out, f, sort_keys=True)
